@@ -46,18 +46,6 @@ theorem removeLit_absent (p s : List Char) (h : hasInfix p s = false) : removeLi
   · exact removeGo_absent p s h
 
 /-- a pattern without a newline does not see a newline appended to the text -/
-theorem isPrefixOf_snoc_nl (p : List Char) (hnl : '\n' ∉ p) (t : List Char) :
-    p.isPrefixOf (t ++ ['\n']) = p.isPrefixOf t := by
-  induction p generalizing t with
-  | nil => simp [List.isPrefixOf]
-  | cons x xs ih =>
-    have hx : x ≠ '\n' := fun h => hnl (by simp [h])
-    have hxs : '\n' ∉ xs := fun h => hnl (by simp [h])
-    cases t with
-    | nil => simp [List.isPrefixOf, hx]
-    | cons y ys =>
-      simp only [List.cons_append, List.isPrefixOf, ih hxs ys]
-
 theorem isPrefixOf_length_le {p t : List Char} (h : p.isPrefixOf t = true) :
     p.length ≤ t.length :=
   (List.isPrefixOf_iff_prefix.1 h).length_le
@@ -308,10 +296,7 @@ theorem filter_drops_line (c : Compiler) (hc : c = .javac ∨ c = .kotlinc) (p :
     (hsep : ∀ i ∈ is, ∀ x ∈ itemLines c i, (isHdr c p i = true ∧ x = p) ∨ hasInfix p x = false) :
     analyze c [p] (render c is)
       = ⟨false, groupByFile (expected c (is.filter fun i => !isHdr c p i))⟩ := by
-  have h1 : crashSearch c (render c is) = false := by
-    have := crashSearch_render c is [] hwf
-    rw [List.append_nil] at this
-    rw [this]; exact crashSearch_nil c
+  have h1 : crashSearch c (render c is) = false := crashSearch_render_nil c is hwf
   have h2 : (c == Compiler.groovyc) = false := by rcases hc with rfl | rfl <;> rfl
   have h3 : applyFilters [p] (render c is) = removeLit p (render c is) := rfl
   simp only [analyze, h1, h2, h3, Bool.false_eq_true, if_false, Bool.false_and]
@@ -340,14 +325,6 @@ theorem filter_absent (c : Compiler) (fs : List (List Char)) (out : List Char)
   rw [applyFilters_absent fs out h, applyFilters_nil]
 
 /-! ## C. illustrations (javac, three files) -/
-
-/-- `chars! "ab"` is the list literal `['a', 'b']` (the same value as `"ab".toList`, but the
-kernel does not have to decode the string: `decide` on `String.toList` is ~20 times slower) -/
-scoped macro "chars! " s:str : term => do
-  let cs := s.getString.toList.toArray.map fun c => Lean.Syntax.mkCharLit c
-  `([$cs,*])
-
-example : chars! "a/b c" = "a/b c".toList := by decide
 
 def exAlpha : List Char := chars! "/tmp/tmpab12cd_9/src/alpha/Main.java"
 def exBeta : List Char := chars! "/tmp/tmpab12cd_9/src/beta/Main.java"
